@@ -9,6 +9,7 @@ import (
 	"sort"
 	"strconv"
 	"strings"
+	"sync"
 	"time"
 )
 
@@ -242,9 +243,26 @@ func cmdCheck(args []string) int {
 		fmt.Printf("UNDECIDED property=%s reason=no function under contract for this property\n", *prop)
 		return 3
 	}
+	// bind every contract first (binding mutates the contract), then generate obligations in parallel
+	for _, k := range p.Order {
+		p.Bind(p.Contracts[k])
+	}
+	results := make([][]*FuncResult, len(cons))
+	var wg sync.WaitGroup
+	sem := make(chan struct{}, 8)
+	for i, c := range cons {
+		wg.Add(1)
+		sem <- struct{}{}
+		go func(i int, c *Contract) {
+			defer wg.Done()
+			defer func() { <-sem }()
+			results[i] = VerifyFunc(p, c)
+		}(i, c)
+	}
+	wg.Wait()
 	var frs []*FuncResult
-	for _, c := range cons {
-		frs = append(frs, VerifyFunc(p, c)...)
+	for _, r := range results {
+		frs = append(frs, r...)
 	}
 	undecided := false
 	for _, fr := range frs {
@@ -256,7 +274,7 @@ func cmdCheck(args []string) int {
 	if undecided {
 		return 3
 	}
-	solveAll(frs, timeout, *tier == "thorough", 5)
+	solveAll(frs, timeout, *tier == "thorough", 6)
 	extra := runExtras(p, *prop, *tier, seed)
 	return report(p, *prop, *tier, seed, frs, extra, time.Since(t0))
 }
